@@ -138,13 +138,18 @@ func (r Registry) resolveImportConflict(a, b *Package, lvl int) {
 	}
 
 	for _, p := range []*Package{a, b} {
+		other := a
+		if p == a {
+			other = b
+		}
 		name := p.uniqueName(lvl)
 		// Even though the name is not conflicting with the other package we
 		// got, the new name we want to pick might already be taken. So check
 		// again for conflicts and resolve them as well. Since the name for
 		// this package would also get set in the recursive function call, skip
-		// setting the alias after it.
-		if conflict, ok := r.searchImport(name); ok && conflict != p {
+		// setting the alias after it. The other package of this call is not
+		// such a conflict: it is given its own, different name right here.
+		if conflict, ok := r.searchImport(name); ok && conflict != p && conflict != other {
 			r.resolveImportConflict(p, conflict, lvl+1)
 			continue
 		}
